@@ -2931,6 +2931,73 @@ Print Assumptions loopir_arburg_tie.
 THEOREMS['arburg'] = dict(proof=ARBURG_PROOF, theorems=ARBURG_THEOREMS, block=ARBURG_BLOCK)
 
 
+# ---------------------------------------------------------------- aryule: translation + theorem by COMPOSITION of the theorems of CORRELATION and LEVINSON (T6)
+ARYULE_PROOF = 'Proofs/LoopIRAryule.v'
+ARYULE_THEOREMS = ['loopir_aryule_model', 'loopir_aryule_complex', 'loopir_aryule_real', 'loopir_aryule_tie']
+ARYULE_BLOCK = """
+(* The program regenerated on this run - with the programs of CORRELATION and LEVINSON embedded - is, term for term, the one
+   Proofs/LoopIRAryule.v is about: its theorems (composition of correlation_ir_run and levinson_ir_run through SCall1 / SCall) apply. *)
+Require Import Spectrum.Theory.Ops Spectrum.Theory.Vec Spectrum.Model.Levinson Spectrum.Model.Corr Spectrum.Model.Yule Spectrum.Model.LoopIRTie
+               Spectrum.Model.LoopIRWrap Spectrum.Proofs.LoopIRLevinson Spectrum.Proofs.LoopIRCorrelation Spectrum.Proofs.LoopIRAryule.
+Lemma prog_aryule_is_ref : prog_aryule = prog_aryule_ref.
+Proof. reflexivity. Qed.
+(* both dtype tags (the tag is [negb c]), ANY X, order, norm omitted / any string, allow_singularity omitted / given, any oracle values:
+   the run is the model with [conj] replaced by [cj c] ([c = false]: what the float branches of CORRELATION and LEVINSON compute) *)
+Theorem loopir_aryule_model :
+  forall (F : Type) (OF : Ops F) (L : Laws OF) (feq : F -> F -> bool) (stop : Z -> F -> F -> bool)
+         (c : bool) (x : list F) (order : nat) (nm : option string) (allow : option bool) (o1 o2 : F),
+  run feq stop prog_aryule (aryule_args (negb c) x order nm allow o1 o2) =
+  match yw_norm nm with
+  | None => OErr AssertionError
+  | Some cn => yw_outcome (negb c) (garyule c (o1 * o2)%F x order cn (match allow with Some b => b | None => true end))
+  end.
+Proof. intros. rewrite prog_aryule_is_ref. exact (aryule_ir_run feq stop c x order nm allow o1 o2). Qed.
+(* complex dtype: the hand-written model Model.Yule.aryule itself, unconditionally *)
+Theorem loopir_aryule_complex :
+  forall (F : Type) (OF : Ops F) (L : Laws OF) (feq : F -> F -> bool) (stop : Z -> F -> F -> bool)
+         (x : list F) (order : nat) (nm : option string) (allow : option bool) (o1 o2 : F),
+  run feq stop prog_aryule (aryule_args false x order nm allow o1 o2) =
+  match yw_norm nm with
+  | None => OErr AssertionError
+  | Some cn =>
+      match aryule x order cn (match allow with Some b => b | None => true end) with
+      | inr (a, p, k) => ORet [VArr false a; VF p; VArr false k]
+      | inl YAssert => OErr AssertionError
+      | inl YSingular => OErr ValueError
+      end
+  end.
+Proof. intros. rewrite prog_aryule_is_ref. exact (aryule_ir_complex feq stop x order nm allow o1 o2). Qed.
+(* float dtype, real-valued X, allow_singularity=False, a real-valued autocorrelation with a positive lag 0 *)
+Theorem loopir_aryule_real :
+  forall (F : Type) (OF : Ops F) (L : Laws OF) (feq : F -> F -> bool) (stop : Z -> F -> F -> bool)
+         (x : list F) (order : nat) (nm : option string) (o1 o2 : F),
+  (forall j, conj (nthF x j) = nthF x j) ->
+  (forall cn r, yw_norm nm = Some cn -> acorr x order cn = Some r -> (forall j, conj (nthF r j) = nthF r j) /\\ le0 (re (nthF r 0)) = false) ->
+  run feq stop prog_aryule (aryule_args true x order nm (Some false) o1 o2) =
+  match yw_norm nm with
+  | None => OErr AssertionError
+  | Some cn =>
+      match aryule x order cn false with
+      | inr (a, p, k) => ORet [VArr true a; VF p; VArr true k]
+      | inl YAssert => OErr AssertionError
+      | inl YSingular => OErr ValueError
+      end
+  end.
+Proof. intros F OF L feq stop x order nm o1 o2 H1 H2. rewrite prog_aryule_is_ref. exact (aryule_ir_real feq stop x order nm o1 o2 H1 H2). Qed.
+(* hence the boolean of the exact evaluation tie is true for every complex-tagged input, for every reflexive equality test *)
+Theorem loopir_aryule_tie :
+  forall (F : Type) (OF : Ops F) (L : Laws OF) (feq : F -> F -> bool), (forall a, feq a a = true) ->
+  forall (x : list F) (order : nat) (nm : option string) (allow : option bool) (o1 o2 : F),
+  tie_aryule feq prog_aryule false x order nm allow o1 o2 = true.
+Proof. intros. rewrite prog_aryule_is_ref. apply aryule_ir_tie; assumption. Qed.
+Print Assumptions loopir_aryule_model.
+Print Assumptions loopir_aryule_complex.
+Print Assumptions loopir_aryule_real.
+Print Assumptions loopir_aryule_tie.
+"""
+THEOREMS['aryule'] = dict(proof=ARYULE_PROOF, theorems=ARYULE_THEOREMS, block=ARYULE_BLOCK)
+
+
 def reference_text_in(proof, name):
     """the program text of <name> that <proof> was proved about (between its BEGIN/END GENERATED <name> markers)"""
     t = open(os.path.join(vlib.COQ, proof)).read()
